@@ -361,6 +361,17 @@ PPL::Grid::frequency_no_check(const Linear_Expression& expr,
   // in `gen_sys'.
   const dimension_type num_rows = gen_sys.num_rows();
   PPL_DIRTY_TEMP_COEFFICIENT(sp);
+  // The frequency is undefined if a line is not orthogonal to `expr':
+  // check this first, so that the outputs are left untouched.
+  for (dimension_type row = 1; row < num_rows; ++row) {
+    const Grid_Generator& gen = gen_sys[row];
+    if (gen.is_line()) {
+      Scalar_Products::homogeneous_assign(sp, expr, gen);
+      if (sgn(sp) != 0) {
+        return false;
+      }
+    }
+  }
   freq_n = 0;
 
   // As the generators are minimized, `gen_sys[0]' is a point
@@ -394,6 +405,17 @@ PPL::Grid::frequency_no_check(const Linear_Expression& expr,
 
   // Reduce `val_n' by the frequency `freq_n'.
   val_n %= freq_n;
+  // Pick the value closest to zero.
+  {
+    PPL_DIRTY_TEMP_COEFFICIENT(twice);
+    twice = 2 * val_n;
+    if (twice > freq_n) {
+      val_n -= freq_n;
+    }
+    else if (twice < -freq_n) {
+      val_n += freq_n;
+    }
+  }
 
   PPL_DIRTY_TEMP_COEFFICIENT(gcd);
   // Reduce `freq_n' and `freq_d'.
